@@ -1,6 +1,6 @@
 (** C07 — the specialised kernels against the definitions. *)
 From Coq Require Import List ZArith NArith Bool Arith Lia.
-From UV Require Import Model.Prims Model.Kernels Proofs.Prims.
+From UV Require Import Model.Prims Model.Kernels Proofs.Prims Proofs.KernelsBase Proofs.KernelsAtoms.
 Import ListNotations.
 
 (* ================================================================== refutations (faithful kernels) *)
@@ -44,3 +44,115 @@ Proof.
   split; [vm_compute; reflexivity|]. split; [vm_compute; reflexivity|].
   split; vm_compute; congruence.
 Qed.
+
+(* ================================================================== kernels under theorems *)
+
+(** the catalogue atoms whose depth kernel is proved equal to the definition *)
+Definition proved_atom (a : katom) : option mfn :=
+  match a with
+  | KId => Some FId | KRev => Some FRev | KFirst => Some FFirst | KLast => Some FLast
+  | KDeshape => Some FDeshape | KFix => Some FFix | _ => None end.
+
+Lemma id_bk d x : wf x -> Ok x = run_bk (bk_same (fun rs => rs)) d x.
+Proof. intros W. rewrite run_bk_same; auto. rewrite firstn_skipn. destruct x; reflexivity. Qed.
+
+(** kernel_eq_generic: on every well-formed array whose mapped axes are non-empty - of ANY rank,
+    also below the nesting depth - the depth-d kernel computes d nested rows of the primitive *)
+Theorem kernel_eq_generic : forall a f, proved_atom a = Some f ->
+  forall d x, wf x -> lead_pos d (ash x) -> run_katom a d x = rows_iter d (sem f) x.
+Proof.
+  intros a f Ha d x W L.
+  destruct a; cbn in Ha; inversion Ha; subst f; cbn [run_katom].
+  - rewrite (id_bk d x W), run_bk_rows_iter by auto. apply rows_iter_ext; auto.
+    intros y Wy. rewrite <- (id_bk 0 y Wy). reflexivity.
+  - rewrite k_reverse_bk, run_bk_rows_iter by auto. apply rows_iter_ext; auto. apply rev_bk0.
+  - rewrite k_first_bk, run_bk_rows_iter by auto. apply rows_iter_ext; auto. apply first_bk0.
+  - rewrite k_last_bk, run_bk_rows_iter by auto. apply rows_iter_ext; auto. apply last_bk0.
+  - rewrite k_deshape_bk, run_bk_rows_iter by auto. apply rows_iter_ext; auto. apply deshape_bk0.
+  - rewrite k_fix_bk, run_bk_rows_iter by auto. apply rows_iter_ext; auto. apply fix_bk0.
+Qed.
+
+(** box: the repaired slicing is under the theorem unconditionally, the current one wherever
+    it does not hit the empty-rows quirk (box_depth_empty_rows_refuted) *)
+Theorem box_kernel_eq_fixed : forall d x, wf x -> lead_pos d (ash x) ->
+  Ok (k_box_fixed d x) = rows_iter d (sem FBox) x.
+Proof.
+  intros d x W L. rewrite k_box_fixed_bk, run_bk_rows_iter by auto. apply rows_iter_ext; auto. apply box_bk0.
+Qed.
+Theorem box_kernel_eq : forall d x, wf x -> lead_pos d (ash x) ->
+  (prodn (skipn (dmin d x) (ash x)) <> 0 \/ dmin d x <= 1) ->
+  run_katom KBox d x = rows_iter d (sem FBox) x.
+Proof. intros d x W L H. cbn [run_katom]. rewrite k_box_eq_fixed by auto. apply box_kernel_eq_fixed; auto. Qed.
+
+(** over an empty mapped axis: the shape-only kernels succeed and keep the mapped lengths *)
+Theorem kernel_empty_lead : forall a, In a [KId; KRev; KDeshape; KFix] ->
+  forall d x i, wf x -> d <= length (ash x) -> first_zero (firstn d (ash x)) = Some i ->
+  exists y, run_katom a d x = Ok y /\ firstn (S i) (ash y) = firstn (S i) (ash x).
+Proof.
+  intros a Ha d x i W Hd Hz. cbn in Ha.
+  destruct Ha as [<-|[<-|[<-|[<-|[]]]]]; cbn [run_katom].
+  - rewrite (id_bk d x W). apply run_bk_empty; auto.
+  - rewrite k_reverse_bk by auto. apply run_bk_empty; auto.
+  - rewrite k_deshape_bk by auto. apply run_bk_empty; auto.
+  - rewrite k_fix_bk by auto. apply run_bk_empty; auto.
+Qed.
+
+(** `≡` increments the depth: fast-path selection for rows^k of a proved atom, and what rows1 runs *)
+Theorem rows_increments_depth : forall k f ks d, fast_fn f = Some (ks, d) ->
+  fast_fn (rowsk k f) = Some (ks, k + d).
+Proof. induction k; intros; cbn [rowsk fast_fn Nat.add]; auto. rewrite (IHk f ks d); auto. Qed.
+
+(** end to end for a single catalogue atom under k rows: interpreter = definition *)
+Theorem exec_rows_atom_eq : forall a f, proved_atom a = Some f -> atom_kernel false f = Some a ->
+  forall k x, wf x -> lead_pos (S k) (ash x) ->
+  exec_mfn (rowsk (S k) f) x = sem (rowsk (S k) f) x.
+Proof.
+  intros a f Ha Hk k x W L.
+  assert (Hf : fast_fn f = Some ([a], 0)).
+  { destruct f; cbn in Hk |- *; try discriminate; inversion Hk; subst; try reflexivity; destruct a; discriminate. }
+  cbn [rowsk exec_mfn]. rewrite (rows_increments_depth k f [a] 0 Hf). rewrite Nat.add_0_r.
+  cbn [run_kernels]. rewrite (kernel_eq_generic a f Ha (S k) x W L).
+  assert (Hs : forall j y, sem (rowsk j f) y = rows_iter j (sem f) y).
+  { induction j; intros y; cbn [rowsk rows_iter sem]; auto.
+    unfold rows_def. destruct (ash y); auto. f_equal. erewrite mapM_ext_in; [reflexivity|]. intros; apply IHj. }
+  change (sem (FRows (rowsk k f)) x) with (sem (rowsk (S k) f) x). rewrite Hs.
+  destruct (rows_iter (S k) (sem f) x); reflexivity.
+Qed.
+
+(** rows of a composition = composition of rows, when the intermediate results assemble and the
+    argument has the mapped axis (for scalars see compose_below_rank_refuted) *)
+Lemma rows_from_rows t s (rs : list arr) : Forall (fun r => wf r /\ ash r = s /\ aty r = t) rs ->
+  rows (from_rows t s rs) = rs.
+Proof.
+  intros F. unfold from_rows, of_drows, rows. cbn [aty ash adata rowsh tl drows].
+  rewrite chunk_concat.
+  - rewrite map_map. apply map_id_in. intros r Hr. rewrite Forall_forall in F. destruct (F r Hr) as (_ & <- & <-). destruct r; reflexivity.
+  - apply Forall_forall. intros d Hd. apply in_map_iff in Hd. destruct Hd as (r & <- & Hr).
+    rewrite Forall_forall in F. destruct (F r Hr) as (Wr & <- & _). exact Wr.
+Qed.
+
+Theorem rows_rows_compose : forall (F G : arr -> res arr) x n s ys y0,
+  ash x = n :: s -> mapM F (rows x) = Ok (y0 :: ys) ->
+  Forall (fun r => wf r /\ ash r = ash y0 /\ aty r = aty y0) (y0 :: ys) ->
+  rows_def (fun r => y <- F r ;; G y) x = (y <- rows_def F x ;; rows_def G y).
+Proof.
+  intros F G x n s ys y0 E HF Hall.
+  assert (Hk : forallb (same_kind y0) ys = true).
+  { inversion Hall as [|? ? _ Ht]; subst. clear -Ht. induction Ht as [|r l (_ & Hs & Hty) _ IH]; cbn; auto.
+    rewrite IH, andb_true_r. unfold same_kind. rewrite Hs, Hty, ety_eqb_refl, list_eqb_refl_nat. reflexivity. }
+  assert (Hm : forall l l', mapM F l = Ok l' -> mapM (fun r => y <- F r ;; G y) l = mapM G l').
+  { induction l; intros l' H; cbn [mapM bind] in *.
+    - inversion H; reflexivity.
+    - destruct (F a); cbn [bind] in *; try discriminate. destruct (mapM F l) as [lr| |] eqn:El; cbn [bind] in H; try discriminate.
+      inversion H; subst. cbn [mapM]. rewrite (IHl lr eq_refl). reflexivity. }
+  unfold rows_def at 2. rewrite E, HF. cbn [bind assemble]. rewrite Hk. cbn [bind].
+  unfold rows_def at 1. rewrite E, (Hm _ _ HF).
+  unfold rows_def. rewrite rows_from_rows by auto. cbn [from_rows of_drows ash aty].
+  destruct (mapM G (y0 :: ys)) as [l| |] eqn:EG; cbn [bind]; auto.
+  apply mapM_length in EG. destruct l; [discriminate|]. reflexivity.
+Qed.
+
+(** the repaired min/max shortcut is never taken under rows: there the reduction is the depth kernel *)
+Theorem reduce_minmax_shortcut_repaired : forall su o d x,
+  k_reduce_minmax false su o (S d) x = k_reduce_num o (S d) x.
+Proof. intros. unfold k_reduce_minmax. cbn [orb Nat.eqb andb]. destruct o; reflexivity. Qed.
